@@ -26,3 +26,39 @@ pub proof fn axiom_lz_usize(n: usize)
         n > 0 ==> vstd::arithmetic::power2::pow2((63 - lz_usize(n)) as nat) <= n < vstd::arithmetic::power2::pow2((64 - lz_usize(n)) as nat),
 {
 }
+
+/// S-03  Result::unwrap_or
+pub assume_specification<T, E>[ Result::<T, E>::unwrap_or ](res: Result<T, E>, default: T) -> (r: T)
+    where E: std::marker::Destruct, T: std::marker::Destruct,
+    ensures
+        r == (match res { Ok(v) => v, Err(_) => default }),
+;
+
+/// S-04  <u32 as From<bool>>::from: false -> 0, true -> 1
+#[verifier::external_body]
+pub proof fn axiom_u32_from_bool()
+    ensures
+        <u32 as vstd::std_specs::convert::FromSpec<bool>>::obeys_from_spec(),
+        forall|b: bool| #[trigger] <u32 as vstd::std_specs::convert::FromSpec<bool>>::from_spec(b) == (if b { 1u32 } else { 0u32 }),
+{
+}
+
+/// S-05  <i32 as TryFrom<u32>>::try_from: Ok(n) exactly when n <= i32::MAX
+#[verifier::external_body]
+pub proof fn axiom_i32_try_from_u32()
+    ensures
+        <i32 as vstd::std_specs::convert::TryFromSpec<u32>>::obeys_try_from_spec(),
+        forall|n: u32| (#[trigger] <i32 as vstd::std_specs::convert::TryFromSpec<u32>>::try_from_spec(n)).is_ok() <==> n <= 0x7fff_ffff,
+        forall|n: u32| n <= 0x7fff_ffff ==> (#[trigger] <i32 as vstd::std_specs::convert::TryFromSpec<u32>>::try_from_spec(n)).unwrap() == n as i32,
+{
+}
+
+/// S-06  <usize as TryFrom<usize>>::try_from (blanket reflexive impl): always Ok(n)
+#[verifier::external_body]
+pub proof fn axiom_usize_try_from_usize()
+    ensures
+        <usize as vstd::std_specs::convert::TryFromSpec<usize>>::obeys_try_from_spec(),
+        forall|n: usize| (#[trigger] <usize as vstd::std_specs::convert::TryFromSpec<usize>>::try_from_spec(n)).is_ok(),
+        forall|n: usize| (#[trigger] <usize as vstd::std_specs::convert::TryFromSpec<usize>>::try_from_spec(n)).unwrap() == n,
+{
+}
